@@ -17,6 +17,7 @@ CLAIMS = {
     "C09": ("n >= 1; n == 0 is the unit concat0, finding F6", "lazy-subscription gate (member k+1 only after member k completed), member-order data relation over a recursive concatenation, re-issued Pull postcondition"),
     "C10": ("one generated contract per arity 1..3 of the macro", "latest-value tuple gate at every emission (COMBINE_TUPLE), exactly-one-tuple-per-datum counter invariant, counters tied to member phases, completion gate, Pull-reaches-every-running-member postcondition"),
     "C11": ("", "generation ghost: previous-inner-disposed gate at every inner subscription, routing gate on Pulls, completion gate, one Pull per inner greeting, arrival-order data relation"),
+    "C12": ("profile R as the property quantifies: attaches at top level, only the sink being delivered to acts, the source answers inside a delivery only when it is the last of its fan-out; nested fan-out is finding F4", "reference-count invariant (list non-empty <=> upstream alive), position ghost tying attached sinks to list entries, fan-out loop invariant over the snapshot, postconditions: every attached sink gets every datum / the termination / the error"),
     "C13": ("", "every cell is allocated inside the subscription handler (alloc flags in the postcondition of subscribe); closures outside the handler must read exactly as recorded"),
     "C14": ("", "pullable profile (c.pullable): no-unrequested-data gate and outstanding-demand invariant parts"),
     "C15": ("", "iterator-order, one-next-per-item and no-nested-delivery (ddepth) obligations on the extracted loop closure with a loop invariant"),
@@ -26,7 +27,6 @@ CLAIMS = {
 }
 NA = {
     "C06": "pipeline composition not built yet (per-stage contracts exist; the chain lemma is pending)",
-    "C12": "share contract not built yet",
     "C18": "thread-interleaving profile not built yet",
     "C19": "thread-interleaving profile not built yet",
 }
